@@ -20,7 +20,7 @@ def oracle(prog, vec, mode, n, p, o, extra):
 
 def run(ctx):
     cfg = e1.standard_configs(ctx)
-    e1.sweep(ctx, E.depth1_programs(), cfg, "pv.checks.c04.oracle")
+    e1.sweep(ctx, E.depth1_programs(include_fxp=True), cfg, "pv.checks.c04.oracle")
     from ..recorder import BN128, CURVE25519
     d2 = X.depth2_family(ctx)
     cfg2 = [(2, BN128, E.D(2))] + ([(3, CURVE25519, E.D(2))] if ctx.thorough else [])
